@@ -518,3 +518,42 @@ def r02_12(ctx):
                     "nothing can be resent, no probe is scheduled, and a lost window update stalls the connection for good", body=d, bb=s, path=bad[0][1])
         else:
             ctx.ok(('rto', 'idle-only-when-sendable'), sample=dict(call='timer.set_for_idle()', guard='remote_win_len != 0 | tx_buffer.is_empty()'))
+
+
+@rule('R08.6', ['C08', 'C10', 'C12'], floor=1, clause='when a datagram is emitted into the (reused, larger) fragmentation buffer, the emitters are handed exactly the datagram\'s length of it: a checksum over "the whole buffer" must not cover stale bytes')
+def r08_6(ctx):
+    F = ctx.F
+    FR = 'iface::fragmentation::Fragmenter'
+    b = ctx.method(IFI, 'dispatch_ip')
+    cls = {c.key for c in F.closures_of(b.key)}
+    n = 0
+    for body in [b] + F.closures_of(b.key):
+        for x in body.calls():
+            nm = body.callee_name(x[1]) or x[1].get('fn') or ''
+            # calls of a local closure (FnOnce/Fn::call) or of emit functions with a buffer argument taken from the fragmenter
+            for a in x[2]:
+                if not is_place_op(a):
+                    continue
+                o = F.origin.operand(body, a, x[0], len(body.blocks[x[0]]['s']))
+                if f"F:{FR}.buffer" not in leafs(o):
+                    continue
+                if not (nm in cls or nm.endswith(('::call', '::call_once', '::call_mut')) or nm.rsplit('::', 1)[-1].startswith('emit')):
+                    continue
+                n += 1
+                o2 = untuple(strip(simplify(o)))
+                # through the closure argument tuple
+                found = []
+
+                def w(nd):
+                    if isinstance(nd, tuple) and nd and nd[0] == 'call' and nd[1].rsplit('::', 1)[-1] in ('index_mut', 'index') and len(nd[2]) == 2 \
+                            and f"F:{FR}.buffer" in leafs(nd[2][0]):
+                        rb = range_bounds(F, nd[2][1])
+                        if rb and rb[0] in ('RangeTo', 'Range') and any(l.endswith('::buffer_len') for l in leafs(rb[2]) if l.startswith('C:')):
+                            found.append(1)
+                walk(simplify(o), w)
+                if found:
+                    ctx.ok(('dispatch_ip', 'frag-buffer-slice', x[0]), sample=dict(call=nm.rsplit('::', 2)[-2:], buffer='frag.buffer[..total_ip_len]'))
+                else:
+                    ctx.bad("dispatch_ip|frag-buffer|whole", "dispatch_ip hands the whole fragmentation buffer to the header/payload emitters: an emitter without a "
+                            "length field (ICMPv4) checksums the stale bytes of an earlier, larger datagram behind this one", body=body, bb=x[0])
+    ctx.need(n >= 1, "emission into the fragmentation buffer in dispatch_ip")
